@@ -70,6 +70,13 @@ func (c *Cluster) resume(t *task) {
 	if t.n.epoch != t.epoch || !t.n.running() {
 		t.aborted = true
 	}
+	if h := t.handlerNode; h != nil && (h.epoch != t.handlerEpoch || !h.running() || h.node == nil) {
+		// the node inside whose handler the request is parked was killed
+		// meanwhile (possibly with its core lock held by the operation that was
+		// cut short): the request dies with the process that was serving it
+		t.aborted = true
+		c.stats.probe("parked-request-in-handler-of-killed-node")
+	}
 	t.parked = false
 	c.curTask = t
 	t.gate <- struct{}{}
